@@ -157,6 +157,14 @@ Fixpoint is_tail_of (t l : list str) : bool :=
 Definition starts_with_then_tail (res new old : list str) : bool :=
   strs_eqb (firstn (length new) res) new && is_tail_of (skipn (length new) res) old.
 
+(** how many entries the argument holds for a key: a mapping holds ONE per key even when its value is
+    a list (MultiDict.update stores the list object; the serialiser expands it afterwards) *)
+Definition arg_entries (q : qarg) (new : list (str * str)) (k : str) : nat :=
+  match q with
+  | QAMap items | QASeq items => length (filter (fun kv : str * qval => str_eqb (fst kv) k) items)
+  | _ => length (values_of k new)
+  end.
+
 Definition kf_f29 (kind : N) (q : qarg) (names : list str) (before after : val) : bool :=
   match kind, obs_pairs before, obs_pairs after, spec_pairs kind q with
   | 2, Some old, Some res, Ok (Some new) =>
@@ -165,9 +173,9 @@ Definition kf_f29 (kind : N) (q : qarg) (names : list str) (before after : val) 
       && forallb (fun k => starts_with_then_tail (values_of k res) (values_of k new) (values_of k old)) ks
       && negb (update_ok ks old new res)
       (* input side: a key is left with stale old values only if ANOTHER updated key lost old pairs
-         (two or more keys are updated) *)
+         (two or more keys are updated; entries counted as MultiDict.update sees them) *)
       && forallb (fun k => strs_eqb (values_of k res) (values_of k new)
                            || existsb (fun k1 => negb (str_eqb k1 k)
-                                                 && (length (values_of k1 new) <? length (values_of k1 old))%nat) ks) ks
+                                                 && (arg_entries q new k1 <? length (values_of k1 old))%nat) ks) ks
   | _, _, _, _ => false
   end.
